@@ -29,6 +29,11 @@ type Run struct {
 	knownSeen   map[string]string
 	findings    []Finding
 	printed     map[string]bool
+	// replay mode (--replay <file>): the check runs with the tier and seed recorded in the
+	// replay file and only the violation with that file's key counts
+	replayKey  string
+	replayPath string
+	reproduced bool
 }
 
 type Finding struct {
@@ -48,6 +53,31 @@ func NewRun(id, tier, level string) *Run {
 	}
 	r := &Run{ID: id, Tier: tier, Seed: seed, Level: level, start: time.Now(),
 		Cov: map[string]any{}, knownSeen: map[string]string{}, printed: map[string]bool{}}
+	if p := os.Getenv("VERIF_REPLAY"); p != "" {
+		var rep struct {
+			Property, Key, Tier string
+			Seed                int64
+		}
+		if !filepath.IsAbs(p) {
+			p = filepath.Join(os.Getenv("VERIF_ORIG_PWD"), p)
+		}
+		b, err := os.ReadFile(p)
+		if err != nil || json.Unmarshal(b, &rep) != nil || rep.Key == "" {
+			fmt.Fprintf(os.Stderr, "TOOL-FAILURE property=%s cannot read replay file %s\n", id, p)
+			os.Exit(2)
+		}
+		if rep.Property != "" && rep.Property != id {
+			fmt.Fprintf(os.Stderr, "TOOL-FAILURE property=%s replay file %s belongs to %s\n", id, p, rep.Property)
+			os.Exit(2)
+		}
+		r.replayKey, r.replayPath = rep.Key, p
+		if rep.Tier != "" {
+			r.Tier = rep.Tier
+		}
+		if rep.Seed != 0 {
+			r.Seed = rep.Seed
+		}
+	}
 	b, err := os.ReadFile(filepath.Join(VerifDir(), "known_findings.json"))
 	if err == nil {
 		var all []Finding
@@ -134,6 +164,15 @@ func (r *Run) AddTLC(name string, res *TLCResult) {
 func (r *Run) Violation(key, what string, replay any) {
 	r.mu.Lock()
 	defer r.mu.Unlock()
+	if r.replayKey != "" {
+		if key == r.replayKey && !r.reproduced {
+			r.reproduced = true
+			r.violations++
+			fmt.Printf("VIOLATION property=%s replay=%s\n", r.ID, r.replayPath)
+			fmt.Fprintf(os.Stderr, "  reproduced: %s: %s\n", key, what)
+		}
+		return
+	}
 	for _, f := range r.findings {
 		if f.Status == "open" && f.Key == key {
 			if _, ok := r.knownSeen[key]; !ok {
@@ -206,6 +245,10 @@ func (r *Run) Finish() int {
 	if err := os.WriteFile(filepath.Join(dir, r.ID+".json"), append(b, '\n'), 0o644); err != nil {
 		fmt.Fprintf(os.Stderr, "evidence: %v\n", err)
 		return 2
+	}
+	if r.replayKey != "" && !r.reproduced {
+		fmt.Fprintf(os.Stderr, "[%s] replay %s: the recorded violation was not reproduced on this tree (tier=%s seed=%d)\n", r.ID, r.replayPath, r.Tier, r.Seed)
+		return 0
 	}
 	if r.violations > 0 {
 		return 1
